@@ -478,8 +478,31 @@ func RunPersistCase(seed int64, slowSave bool) *HistResult {
 		return res
 	}
 	waitSaved("schedule of job A", func(s *core.SaveRecord) bool { _, ok := s.Jobs[idA]; return ok })
-	// a change that lands while the loop sleeps (or while a slow save is in progress)
-	time.Sleep(time.Duration(r.Intn(900)) * time.Millisecond)
+	// a change that lands while the loop sleeps - or, with the slow store, while the next save is being written: the
+	// request for it must not be lost
+	if slowSave {
+		// request another save, wait until the persist loop has begun to write it (observed: save-begin event), and land
+		// the next change inside that 200 ms store write
+		nBegin := func() int {
+			n := 0
+			for _, e := range sys.Log.Events() {
+				if e.Kind == core.KSaveBegin {
+					n++
+				}
+			}
+			return n
+		}
+		base := nBegin()
+		idC, _ := sys.Schedule(0, p, nil, "u")
+		_ = idC
+		for start := beats.Load(); beats.Load()-start < limitBeats && nBegin() <= base; {
+			time.Sleep(2 * time.Millisecond)
+		}
+		time.Sleep(time.Duration(20+r.Intn(100)) * time.Millisecond)
+		res.sit("C11", "change landed while a save was being written")
+	} else {
+		time.Sleep(time.Duration(r.Intn(900)) * time.Millisecond)
+	}
 	idB, cls := sys.Schedule(0, p, nil, "u")
 	if cls != "ok" {
 		idB = ""
